@@ -145,7 +145,8 @@ class World:
             "deep": "mnt/a/b/c/d/e/vol",
             "ascmhl_parent": "mnt/ascmhl/vol",
             "dsstore_parent": "mnt/.DS_Store/vol",
-            "pattern_parent": "mnt/ign_t.tmp/x_t.tmp",
+            "pattern_parent": "mnt/k_t.tmp/vol",
+            "x_parent": "mnt/%s/vol" % concrete_name("x", name_class, True),
         }[location]
         self.root = os.path.join(self.base, loc)
         os.makedirs(self.root)
@@ -319,8 +320,16 @@ class World:
                 it.close()
                 random.Random((rnd.random(), str(path)).__repr__()).shuffle(self.entries)
 
+                self.pos = 0
+
             def __iter__(self):
-                return iter(self.entries)
+                return self
+
+            def __next__(self):
+                if self.pos >= len(self.entries):
+                    raise StopIteration
+                self.pos += 1
+                return self.entries[self.pos - 1]
 
             def __enter__(self):
                 return self
